@@ -2,6 +2,7 @@
 import warnings
 
 from mc.core import Res
+from mc import adapt as A
 from mc import keys as K
 from mc import keyhist as H
 from mc import recips as R
@@ -110,6 +111,9 @@ class Prop(object):
                 u.append(('bfs', {'root': root, 'first': op, 'depth': d}))
         for ks in KEYSETS:
             u.append(('forms', {'keyset': ks}))
+        # the same keys with their creation time held as a zone-aware datetime of another offset (same instant): the twin is the same key
+        for ks in ('eddsa+ecdh', 'rsa', 'ecdsa+ecdh'):
+            u.append(('forms', {'keyset': ks, 'created': 'offset'}))
         return u
 
     def run_case(self, check, case):
@@ -154,6 +158,11 @@ class Prop(object):
         ks = case['keyset']
         other_pub = K.pgpy_cert('ed25519b', uid='Other <o@example.org>')[0].pubkey
         key, raws = build(ks)
+        if case.get('created') == 'offset':
+            from datetime import datetime, timezone, timedelta
+            for i, comp in enumerate([key] + list(key.subkeys.values())):
+                A.set_created(comp, datetime.fromtimestamp(K.T0, timezone(timedelta(hours=(5, -8, 14)[i % 3], minutes=30 if i % 3 == 0 else 0))))
+            ks = ks + ' (creation times as datetimes of other UTC offsets)'
         probs = []
         for form in ('unprotected', 'locked', 'unlocked', 'locked-again'):
             r.states += 1
